@@ -34,14 +34,48 @@ def native_replay(h, vals):
     return outs
 
 
+B53 = 1 << 53
+U_BOUNDS = [0, 1, 255, 256, 65535, 65536, (1 << 32) - 1, 1 << 32, B53 - 2, B53 - 1, B53, B53 + 1, (1 << 63) - 1, 1 << 63, (1 << 64) - 1]
+S_BOUNDS = sorted(set([0, 1, -1, 127, 128, -128, -129, 32767, 32768, -32768, -32769, (1 << 31) - 1, 1 << 31, -(1 << 31), -(1 << 31) - 1,
+                       B53 - 2, B53 - 1, B53, B53 + 1, -(B53 - 2), -(B53 - 1), -B53, -B53 - 1, (1 << 63) - 1, -(1 << 63)]))
+
+
+def boundary_probe(h):
+    """concrete probe of one obligation on boundary values through the real code (dev and release) - used only when CBMC gives no
+    verdict for the harness, so that an existing concrete failure is still reported; it never turns into a 'holds'"""
+    sig = HARNESSES[h]
+    if not sig:
+        return None
+    pools = [U_BOUNDS if c == "u" else S_BOUNDS for c in sig]
+    if len(sig) == 1:
+        tuples = [(v,) for v in pools[0]]
+    elif len(sig) == 2:
+        tuples = [(a, b) for a in pools[0] for b in (a, a + 1 if a + 1 in pools[1] else a, pools[1][0], pools[1][-1])]
+    else:
+        # narrowing harnesses: (small, small, small, wide) - vary the wide argument, keep the small ones at their extremes
+        small = [(0, 0, 0), (pools[0][-1] & 0x7F, 1, 1)] if sig[0] == "u" else [(0, 0, 0), (-128, -32768, -(1 << 31)), (127, 32767, (1 << 31) - 1)]
+        tuples = [sm + (w,) for sm in small for w in pools[3]]
+    for vals in tuples:
+        outs = native_replay(h, list(vals))
+        if any(rc == 1 for rc, _ in outs):
+            return list(vals), outs
+    return None
+
+
 def run(rep, tier, only=None):
-    res, out, dt = kani.run_kani(CRATE)
+    budget = 420 if tier == "quick" else 1500
+    try:
+        res, out, dt = kani.run_kani(CRATE, timeout=budget)
+    except Inconclusive as e:
+        rep.inconc("cargo kani gave no result within %d s: %s" % (budget, str(e)[:300]))
+        res = {}
     rep.solver_s += sum(r["time"] for r in res.values())
     rep.functions.update(FUNCS)
     rep.bounds = {"inputs": "every u64 / i64 value (kani::any, no assumptions)", "unwinding": "none needed (loop-free); Kani's unwinding assertions stay on",
                   "instantiations": "U53/u64, I54/i64 and the u8,u16,u32 / i8,i16,i32 conversions"}
     rep.outside = ["serde_json's text <-> integer lexer (the derived impls are driven from the integer onward)",
                    "32-bit targets for usize_from_u53_saturated"]
+    rep.extra["fallback"] = "a harness without a CBMC verdict (time-out) is probed on boundary values through the real code: a failure is reported, absence of one stays INCONCLUSIVE"
     rep.assumptions = ["Kani 0.68 / CBMC 6.11 model of the compiled dev-profile MIR of /repo/lib and serde",
                        "serde::de::value::{U64,I64}Deserializer stand in for a JSON number already lexed to u64/i64"]
     rep.extra["checker_cmd"] = "cargo kani --output-format terse -Z concrete-playback --concrete-playback=print (kani/c18)"
@@ -49,8 +83,17 @@ def run(rep, tier, only=None):
         full = "proofs::" + h
         wit = "proofs::w_" + h
         r = res.get(full)
-        if r is None:
-            rep.inconc("harness %s missing from Kani output" % h)
+        if r is None or r["status"] not in ("SUCCESS", "FAILED"):
+            # no verdict from CBMC (time-out / error): look for a concrete failure on boundary values before giving up
+            hit = boundary_probe(h)
+            rep.validated += 1
+            if hit:
+                vals, outs = hit
+                msg = [o for rc, o in outs if rc == 1][0]
+                rep.violation({"harness": h, "obligation": msg}, "%s with arguments %s (boundary probe through the real code; CBMC gave no verdict for this harness)" % (msg, vals),
+                              {"harness": h, "args": vals})
+            else:
+                rep.inconc("harness %s: no verdict from Kani (%s) and no failure on the boundary values" % (h, "missing from the output" if r is None else r["status"]))
             continue
         rep.obligations += 1
         rep.states += 1
